@@ -328,6 +328,18 @@ def c07_cases(ctx, bases, rnd):
         n = rnd.choice([0, 1, 3, 4, 5, 7, 8, 11, 15, 40, 200])
         add([{"bytes": [rnd.randrange(256) for _ in range(n)]}], "random")
         add([{"bytes": rnd.choice([hdr, hdr_cc, LEGACY_MAGIC]) + [rnd.choice([0, 1, 4, 0x80, 0xFF, rnd.randrange(256)]) for _ in range(n)]}], "random-after-header")
+    # valid frames with dependent blocks beyond 64 KiB (independent encoder): the history window is trimmed while decoding
+    for code, sizes in ((5, [200000, 200000, 70000, 262144]), (6, [1 << 20, 300000, 1 << 20]), (5, [65537, 65536, 65537, 5, 200000])):
+        for kinds in (["lits", "m1", "mprev", "mfar", "raw"], ["raw", "raw", "mfar", "m1", "lits"]):
+            plan = {"code": code, "bcs": False, "ccs": True, "seed": 7000 + code, "blocks": [{"size": z, "kind": kinds[i % len(kinds)]} for i, z in enumerate(sizes)]}
+            for cfg in ({"conc": 1, "mode": "read", "bufs": [4096]}, {"conc": 4, "mode": "writeto"}, {"conc": 1, "mode": "read", "bufs": [300000]}):
+                cases.append({"id": len(cases) + 1, "chunks": [], "plan": plan, "cfg": cfg, "tag": {"what": "linked-big-blocks"}})
+    # a Reader that abandoned another stream in the middle of a block and was Reset (sequential earlier life)
+    saved = [bf["case"]["save"] for bf in bases if bf["w"]["sinkLen"] > 1000]
+    for i in range(min(len(saved), 12 if q else 60)):
+        other = saved[(i * 7 + 3) % len(saved)]
+        add([{"file": saved[i]}], "reused-after-partial-read",
+            cfg={"conc": 1, "mode": ["read", "writeto"][i % 2], "bufs": [rnd.choice([4096, 100, 70000])], "preFile": other, "prePart": rnd.choice([1, 1000, 70000, 100000, 300000])})
     # mutants of valid frames (as in C05), judged here for safety only
     for bf in bases:
         n = bf["w"]["sinkLen"]
